@@ -174,6 +174,45 @@ func runCheck(prop, tier string, verbose bool) int {
 			reps = append(reps, s.verifyFunc(prop, ct))
 		}
 	}
+	// frame guards: other writers of this property's state
+	if cfg.FrameGuard != nil {
+		n := 0
+		for _, pat := range cfg.FrameGuard.Functions {
+			re, err := regexp.Compile("^" + pat + "$")
+			if err != nil {
+				continue
+			}
+			for _, k := range sortedKeys(s.DB.ByKey) {
+				if done[k] || !(re.MatchString(k) || k == pat) {
+					continue
+				}
+				done[k] = true
+				ct := s.DB.ByKey[k]
+				if ct == nil || ct.Opts["trusted"] {
+					continue
+				}
+				r := s.verifyFunc(prop, ct)
+				var keep []*Obligation
+				for _, o := range r.Obls {
+					if o.Kind != "frame" {
+						continue
+					}
+					for _, c := range cfg.FrameGuard.Cells {
+						if strings.HasSuffix(o.Name, ".frame."+c) {
+							keep = append(keep, o)
+						}
+					}
+				}
+				r.Obls = keep
+				r.Key = k + " [frame guard: " + strings.Join(cfg.FrameGuard.Cells, ", ") + "]"
+				if r.Unverified == "" || len(keep) > 0 {
+					reps = append(reps, r)
+					n++
+				}
+			}
+		}
+		cfg.Assumptions = append(cfg.Assumptions, fmt.Sprintf("frame guard: %d further functions of the module are checked only for not writing %s (their other clauses belong to the properties they are tagged with)", n, strings.Join(cfg.FrameGuard.Cells, ", ")))
+	}
 	sort.Strings(trustedRepo)
 	for _, k := range trustedRepo {
 		cfg.Assumptions = append(cfg.Assumptions, "assumed (unverified) contract of repository function "+k+" (opt trusted)")
